@@ -138,8 +138,13 @@ class ImageBatch(DataTensor):
                 split_grids = []
                 tensor_indices_or_sections = args[1]
                 if isinstance(tensor_indices_or_sections, int):
-                    for start in range(0, len(grids), tensor_indices_or_sections):
-                        split_grids.append(grids[start : start + tensor_indices_or_sections])
+                    # Number of sections (not size), where first len(grids) % sections are one larger
+                    num, rem = divmod(len(grids), tensor_indices_or_sections)
+                    start = 0
+                    for i in range(tensor_indices_or_sections):
+                        end = start + num + (1 if i < rem else 0)
+                        split_grids.append(grids[start:end])
+                        start = end
                 elif isinstance(tensor_indices_or_sections, Sequence):
                     indices = list(tensor_indices_or_sections)
                     for start, end in zip([0] + indices, indices + [len(grids)]):
